@@ -72,4 +72,72 @@ theorem C01_verbatim_only_safe (valueMap : List String) (safe : List Nat) (iv : 
   · exact Or.inl ⟨v, hs, str, h1, h2⟩
   · exact Or.inr ⟨_, v, h3⟩
 
+/-! ## Leaves of whole trees (using the global tree invariant `TInv`, `C18_tree_invariant`) -/
+
+/-- (i)+(ii) global, explicit ids: any leaf, anywhere in a tree built by `add_row`, that passes the filter — the only
+leaves `_harvest_leaf` releases a bucket for — holds at least `low_threshold` distinct non-null entities in every id
+column among the rows it holds. -/
+theorem C01_leaf_backed_generic (E : Env α) (c : FCtx α) (root : List (Ival α)) (t : Node α) (hT : TInv E c root t)
+    (d : NodeData α) (s : List (Option (Node α))) (rows : List Nat) (hs : Node.Sub (.leaf d s rows) t)
+    (dims cap : Nat) (hk : c.kind = .generic dims cap) (hrows : ∀ r, (c.pidRow r).length = dims)
+    (hcap : c.ap.supp.lt ≤ (cap : Int)) (hover : (Node.leaf d s rows).overThreshold E c c.ap.supp.lt = true) :
+    ∀ k < dims, c.ap.supp.lt ≤ ((entitySet (idColumn (rows.map c.pidRow) k)).card : Int) := by
+  have := TInv.sub hs hT
+  cases this with
+  | leaf _ _ _ _ hN =>
+    obtain ⟨hist, hperm, hc⟩ := hN.counter
+    intro k hkd
+    rw [hk] at hc
+    have h1 := C18_over_threshold_entities_generic E c (.leaf d s rows) c.ap.supp.lt cap dims (hist.map c.pidRow)
+      (by intro r hr; obtain ⟨x, _, rfl⟩ := List.mem_map.mp hr; exact hrows x) hc hcap hover k hkd
+    have h2 := Finset.card_le_card (entitySet_mono_subset (hist.map c.pidRow) (rows.map c.pidRow)
+      (List.map_subset c.pidRow hperm.subset) k)
+    have : ((entitySet (idColumn (hist.map c.pidRow) k)).card : Int) ≤
+        ((entitySet (idColumn (rows.map c.pidRow) k)).card : Int) := by exact_mod_cast h2
+    omega
+
+/-- (i)+(ii) global, implicit row ids: such a leaf holds at least `low_threshold` rows with a non-null id. -/
+theorem C01_leaf_backed_unique (E : Env α) (c : FCtx α) (root : List (Ival α)) (t : Node α) (hT : TInv E c root t)
+    (d : NodeData α) (s : List (Option (Node α))) (rows : List Nat) (hs : Node.Sub (.leaf d s rows) t)
+    (hk : c.kind = .unique) (hover : (Node.leaf d s rows).overThreshold E c c.ap.supp.lt = true) :
+    c.ap.supp.lt ≤ (nonNullRows (rows.map c.pidRow) : Int) := by
+  have := TInv.sub hs hT
+  cases this with
+  | leaf _ _ _ _ hN =>
+    obtain ⟨hist, hperm, hc⟩ := hN.counter
+    rw [hk] at hc
+    obtain ⟨sd, hsd⟩ := addMany_unique (hist.map c.pidRow) 0 0
+    simp only [CounterKind.newEntity] at hc
+    rw [hsd] at hc
+    have h1 := C18_over_threshold_entities_unique E c (.leaf d s rows) c.ap.supp.lt _ sd hc hover
+    have h2 : nonNullRows (hist.map c.pidRow) = nonNullRows (rows.map c.pidRow) := by
+      simp only [nonNullRows, List.countP_map]
+      exact hperm.countP_eq _
+    rw [← h2]; push_cast at h1 ⊢; omega
+
+/-- the entities that back a released leaf bucket have *their own values inside the released range*: for every row
+the leaf holds (whose value lies in the tree's root range) and every column, the value lies in the bucket's range —
+the node's range, or the single point when the node holds one value only. -/
+theorem C01_leaf_values_inside (E : Env α) (c : FCtx α) (root : List (Ival α)) (t : Node α) (hT : TInv E c root t)
+    (d : NodeData α) (s : List (Option (Node α))) (rows : List Nat) (hs : Node.Sub (.leaf d s rows) t)
+    (r : Nat) (hr : r ∈ rows) (j : Nat) (hj : j < d.comb.length)
+    (hroot : (root.getD j default).lo ≤ c.value r (d.comb.getD j 0) ∧ c.value r (d.comb.getD j 0) ≤ (root.getD j default).hi) :
+    ((Node.leaf d s rows).bucketIntervals.getD j default).lo ≤ c.value r (d.comb.getD j 0) ∧
+    c.value r (d.comb.getD j 0) ≤ ((Node.leaf d s rows).bucketIntervals.getD j default).hi := by
+  have := TInv.sub hs hT
+  cases this with
+  | leaf _ _ _ _ hN =>
+    have hjs : j < d.snapped.length := by rw [hN.lenS]; exact hj
+    have hja : j < d.actual.length := by rw [hN.lenA]; exact hj
+    have e : (Node.leaf d s rows).bucketIntervals.getD j default =
+        if (d.actual.getD j default).isSing then d.actual.getD j default else d.snapped.getD j default := by
+      simp [Node.bucketIntervals, Node.data, List.getD_eq_getElem?_getD, List.getElem?_zipWith, hjs, hja]
+    rw [e]
+    split_ifs with hsing
+    · have hh := hN.hull j hj
+      simp only [List.nil_append] at hh
+      exact hh.1 _ (List.mem_map.mpr ⟨r, hr, rfl⟩)
+    · have := hN.inside r hr j hj hroot
+      exact ⟨this.1, this.2.1⟩
+
 end
